@@ -113,11 +113,34 @@ def rows_of(a):
     return [[qstr(x) for x in row] for row in a.tolist()]
 
 
-def mk_array(ncols, rows, is_int=False):
-    a = np.zeros((len(rows), ncols), dtype=np.int64 if is_int else float)
+LAYOUTS = ["C", "F", "rows2", "cols2", "rev", "revcols"]
+
+
+def mk_array(ncols, rows, is_int=False, layout="C"):
+    """the caller's ndarray; `layout` picks a memory layout with the SAME logical value (C / Fortran order, every
+    second row or column of a private base array, negative strides): the base is held by nobody else, so the
+    array behaves like any other 2-D array of that shape and dtype"""
+    dt = np.int64 if is_int else float
+    a = np.zeros((len(rows), ncols), dtype=dt)
     for i, r in enumerate(rows):
         for j, s in enumerate(r):
             a[i, j] = int(Fraction(s)) if is_int else float(Fraction(s))
+    n = len(rows)
+    if layout == "F":
+        a = np.asfortranarray(a)
+    elif layout == "rows2":
+        base = np.full((2 * n + 1, ncols), 77, dtype=dt)
+        base[0:2 * n:2] = a
+        a = base[0:2 * n:2]
+    elif layout == "cols2":
+        base = np.full((n, 2 * ncols + 1), 77, dtype=dt)
+        base[:, 0:2 * ncols:2] = a
+        a = base[:, 0:2 * ncols:2]
+    elif layout == "rev":
+        a = a[::-1].copy()[::-1]
+    elif layout == "revcols":
+        a = a[:, ::-1].copy()[:, ::-1]
+    assert a.shape == (n, ncols)
     return a
 
 
@@ -264,6 +287,10 @@ class World:
     def __init__(self):
         self.vecs = []
         self.pool = []
+        self.views = []      # held _FieldView objects: {"fv", "v", "f"}
+        self.kept = []       # kept results of fv.flatten(): {"obj", "copy", "v", "f"}
+        self.kept_all = []   # kept results of Vector.flatten(): {"obj", "copy", "v"}
+        self.last_lists = None   # the fields / units list objects the caller passed to the last creation call
 
 
 # ---------------------------------------------------------------------------------------
@@ -378,6 +405,8 @@ def nest(items, lens):
     return [nest(items[i * step:(i + 1) * step], lens[1:]) for i in range(lens[0])]
 
 
+BINNP = {"add": lambda x, c: x + c, "sub": lambda x, c: x - c, "mul": lambda x, c: x * c}
+
 FOPS = {"add": lambda fv, c: fv.__iadd__(c), "sub": lambda fv, c: fv.__isub__(c), "mul": lambda fv, c: fv.__imul__(c),
         "div": lambda fv, c: fv.__itruediv__(c), "floordiv": lambda fv, c: fv.__ifloordiv__(c),
         "mod": lambda fv, c: fv.__imod__(c), "pow": lambda fv, c: fv.__ipow__(c)}
@@ -403,6 +432,10 @@ def resolvable(w, op):
     scan(op.get("items"))
     if "w" in (op.get("rhs") or {}):
         refs.append(("v", op["rhs"]["w"]))
+    if "w" in op and op["w"] >= len(w.views):
+        return False
+    if "kept" in op and op["kept"] >= len(w.kept):
+        return False
     return all((i < len(w.pool)) if k == "p" else (i < len(w.vecs)) for k, i in refs)
 
 
@@ -417,20 +450,78 @@ def apply_real(w, op):
     try:
         with contextlib.redirect_stdout(io.StringIO()):
             if k == "alloc":
-                w.pool.append(mk_array(op["ncols"], op["rows"], op.get("int", False)))
+                w.pool.append(mk_array(op["ncols"], op["rows"], op.get("int", False), op.get("layout", "C")))
                 return {"ok": {"arr": True}}
+            if k in ("from_shape", "from_data"):
+                # the caller may pass the very list objects it passed to the previous creation call
+                fl, ul = op.get("fields"), op.get("units")
+                if op.get("reuse_lists") and w.last_lists is not None:
+                    fl = w.last_lists[0] if w.last_lists[0] == fl else fl
+                    ul = w.last_lists[1] if w.last_lists[1] == ul else ul
+                if op.get("fields_tuple") and fl is not None:
+                    fl = tuple(fl)
+                w.last_lists = (fl, ul)
             if k == "from_shape":
-                v = Vector.from_shape(shape=tuple(op["shape"]), num_fields=op.get("num_fields"),
-                                      fields=op.get("fields"), units=op.get("units"))
+                v = Vector.from_shape(shape=tuple(op["shape"]), num_fields=op.get("num_fields"), fields=fl, units=ul)
                 w.vecs.append(v)
                 return {"ok": {"vec": len(w.vecs) - 1}}
             if k == "from_data":
-                v = Vector.from_data([to_item(w, it) for it in op["items"]], num_fields=op.get("num_fields"),
-                                     fields=op.get("fields"), units=op.get("units"))
+                v = Vector.from_data([to_item(w, it) for it in op["items"]], num_fields=op.get("num_fields"), fields=fl, units=ul)
                 w.vecs.append(v)
                 return {"ok": {"vec": len(w.vecs) - 1}}
+            if k == "nop":
+                return {"ok": None}
+            if k == "kept_mutate":      # the caller changes, in place, an array that `flatten()` handed out earlier
+                F = w.kept[op["kept"]]["obj"]
+                c = Fraction(op["c"])
+                F[...] = BINNP[op["k"]](F, int(c) if F.dtype.kind == "i" else float(c))
+                return {"ok": None}
+            if k in ("view_flatten", "view_op", "view_set", "view_restore", "view_get"):
+                fv = w.views[op["w"]]["fv"]
+                if k == "view_flatten":
+                    F = np.asarray(fv) if op.get("via") == "asarray" else fv.flatten()
+                    if not isinstance(F, np.ndarray):
+                        return {"ok": {"other": type(F).__name__}}
+                    w.kept.append({"obj": F, "copy": F.copy(), "v": w.views[op["w"]]["v"], "f": w.views[op["w"]]["f"]})
+                    return {"ok": {"np": np_json(F)}}
+                if k == "view_op":
+                    rhs = op["rhs"]
+                    if "c" in rhs:
+                        other = int(Fraction(rhs["c"])) if rhs.get("c_int") else float(Fraction(rhs["c"]))
+                    elif "arr" in rhs:
+                        other = np.array([float(Fraction(t)) for t in rhs["arr"]], dtype=float)
+                    else:
+                        other = w.vecs[rhs["w"]][rhs["wf"]]
+                    FOPS[op["k"]](fv, other)
+                    return {"ok": None}
+                if k == "view_set":
+                    vals = op.get("vals")
+                    x = np.array([float(Fraction(t)) for t in vals], dtype=float) if isinstance(vals, list) else np.zeros((2, 2))
+                    fv.set_flattened(x)
+                    return {"ok": None}
+                if k == "view_restore":
+                    fv.set_flattened(w.kept[op["kept"]]["obj"])     # the very array that was handed out
+                    return {"ok": None}
+                idx = tuple(to_index(ix) for ix in op["idx"])
+                if len(idx) == 1 and op.get("bare"):
+                    idx = idx[0]
+                r = fv[idx]
+                if type(r).__name__ == "_FieldView":
+                    w.vecs.append(r.vector)
+                    return {"ok": {"vec": len(w.vecs) - 1}}
+                if r is None:
+                    return {"ok": {"cell": False}}
+                return {"ok": {"np": np_json(r)}}
             v = w.vecs[op["v"]]
             nf = len(v.fields)
+            if k == "view_make":
+                fv = v[op["f"]]
+                w.views.append({"fv": fv, "v": op["v"], "f": op["f"], "j0": list(v.fields).index(op["f"])})
+                return {"ok": {"view": len(w.views) - 1}}
+            if k == "keep_all":
+                A = v.flatten()
+                w.kept_all.append({"obj": A, "copy": A.copy(), "v": op["v"]})
+                return {"ok": None}
             if k == "get_data":
                 r = v.get_data(*[to_index(ix) for ix in op["idx"]])
                 if isinstance(r, list):
@@ -715,6 +806,69 @@ def w_pool_at(before, i):
     return before["pool"][i] if i < len(before["pool"]) else None
 
 
+def effective(w, op):
+    """the operation a request on a HELD object stands for, on the vector and the field NAME the object was made from
+    (the kind-specific clauses of the property are evaluated on that); the original kind stays in `kind`"""
+    k = op["op"]
+    if k in ("view_op", "view_set", "view_restore", "view_get", "view_flatten") and op["w"] < len(w.views):
+        hv = w.views[op["w"]]
+        base = {"v": hv["v"], "f": hv["f"], "kind": k}
+        if k == "view_op":
+            return dict(base, op="field_op_gen", k=op["k"], rhs=op["rhs"], neg_int_pow=op.get("neg_int_pow", False), expect=op.get("expect"))
+        if k == "view_set":
+            return dict(base, op="set_flattened", vals=op.get("vals"))
+        if k == "view_restore":
+            # what the kept array held when it was handed out (or after the caller's own changes): the oracle's copy
+            vals = [qstr(x) for x in w.kept[op["kept"]]["copy"].tolist()] if op["kept"] < len(w.kept) else None
+            return dict(base, op="set_flattened", vals=vals)
+        if k == "view_get":
+            return dict(base, op="field_get", idx=op["idx"])
+        return dict(base, op="view_flatten")
+    return dict(op, kind=k)
+
+
+def same_array(a, b):
+    return a.shape == b.shape and a.dtype == b.dtype and np.array_equal(a, b)
+
+
+def check_kept(ctx, w, op, res, case):
+    """clauses about objects the caller holds across later operations (real class only, no Lean):
+    * a flattened field handed out earlier must still hold the values it was taken with after any later operation on
+      the vector (otherwise writing it back does NOT restore the data it was the concatenation of);
+    * a held field view of a field that still exists reads the column that field NAME has now."""
+    k = op["op"]
+    for i, kp in enumerate(w.kept):
+        if k == "kept_mutate" and op.get("kept") == i:
+            kp["copy"] = kp["obj"].copy()
+            continue
+        if not same_array(kp["obj"], kp["copy"]):
+            ctx.pred_fail(f"kept-flatten-follows-later-change:{k}",
+                          "an array returned earlier by v[f].flatten() changed when the vector was modified later: it is a live view "
+                          "of the cell storage, not the concatenation; writing it back no longer restores the data it was taken from", case,
+                          observed={"kept": i, "field": kp["f"], "now": kp["obj"].tolist()}, required={"unchanged": kp["copy"].tolist()})
+            kp["copy"] = kp["obj"].copy()
+    for vi, hv in enumerate(w.views):
+        v = w.vecs[hv["v"]]
+        if hv["f"] not in v.fields:
+            continue            # the field is gone: nothing is claimed about the view
+        j = list(v.fields).index(hv["f"])
+        try:
+            cells = [c for c in flat_cells(v) if c is not None]
+            exp = np.concatenate([c[:, j] for c in cells]) if cells else np.zeros((0,))
+        except Exception:  # noqa  (structure already reported by check_structure)
+            continue
+        try:
+            got = np.asarray(hv["fv"].flatten())
+        except Exception as e:  # noqa
+            ctx.pred_fail(f"held-view-flatten:{k}", f"flatten() of a field view made earlier for field {hv['f']!r} raised {type(e).__name__} although the field still exists",
+                          case, observed={"view": vi, "error": str(e), "fields_now": list(v.fields)}, required=exp.tolist())
+            continue
+        if got.shape != exp.shape or not np.array_equal(got, exp):
+            ctx.pred_fail(f"held-view-flatten:{k}", f"a field view made earlier for field {hv['f']!r} no longer reads that field's column "
+                          "(row-major concatenation over the populated cells)", case,
+                          observed={"view": vi, "got": got.tolist(), "fields_now": list(v.fields)}, required=exp.tolist())
+
+
 def check_op(ctx, w, before, op, res, case):
     """kind-specific clauses of the property on the real outcome; returns False to stop the sequence"""
     k = op["op"]
@@ -813,6 +967,12 @@ def check_op(ctx, w, before, op, res, case):
             if vid != nid and a["meta"] is n["meta"]:
                 ctx.pred_fail(f"shared-metadata:{k}", f"the vector made by {k} shares its metadata dict with vector {vid}", case,
                               observed="v_new.metadata is v_old.metadata", required="independent metadata")
+                break
+        nv = w.vecs[nid]
+        for vid, ov in enumerate(w.vecs):
+            if vid != nid and (nv.fields is ov.fields or nv.units is ov.units):
+                ctx.pred_fail(f"shared-schema-list:{k}", f"the vector made by {k} shares its fields/units LIST object with vector {vid} (shared mutable state)", case,
+                              observed={"fields_shared": nv.fields is ov.fields, "units_shared": nv.units is ov.units}, required="lists of its own")
                 break
         if k == "from_shape":
             if any(c is not None for c in n["cells"]) or list(n["shape"]) != list(op["shape"]):
@@ -979,14 +1139,18 @@ def compare_state(ctx, tie, w, mobs, case, note):
         md = mobs["metas"][mv["meta"]]
         if sorted(map(tuple, md)) != sorted((k, x) for k, x in v.metadata.items()):
             return bad(f"vec{vid}.metadata", md, dict(v.metadata))
-        flat = [[qstr(x) for x in np.asarray(v[f].flatten()).tolist()] for f in v.fields]
+        try:
+            fl = [np.asarray(v[f].flatten()) for f in v.fields]
+            fa = np.asarray(v.flatten())
+        except Exception as e:  # noqa
+            return bad(f"vec{vid}.flatten", mv["flat"], f"raised {type(e).__name__}: {e}")
+        flat = [[qstr(x) for x in a.tolist()] for a in fl]
         if mv["flat"] != flat:
             return bad(f"vec{vid}.flatten(field)", mv["flat"], flat)
-        fa = np.asarray(v.flatten())
         allr = rows_of(fa)
         if mv["all"] != allr:
             return bad(f"vec{vid}.flatten()", mv["all"], allr)
-        kinds = [fa.dtype.kind == "i"] + [np.asarray(v[f].flatten()).dtype.kind == "i" for f in v.fields]
+        kinds = [fa.dtype.kind == "i"] + [a.dtype.kind == "i" for a in fl]
         if any(kd != mv["flat_int"] for kd in kinds):
             return bad(f"vec{vid}.flatten dtype is int64", mv["flat_int"], kinds)
     for r, ncols, rows, is_int in mobs["heap"]:
@@ -999,6 +1163,15 @@ def compare_state(ctx, tie, w, mobs, case, note):
             return bad(f"heap[{r}] values", {"ncols": ncols, "rows": rows}, {"ncols": o.shape[1], "rows": rows_of(o)})
         if (o.dtype.kind == "i") != is_int or o.dtype.kind not in "if":
             return bad(f"heap[{r}] dtype is int64", is_int, str(o.dtype))
+    # objects the caller holds: kept flattened arrays (values the model says they have NOW), number of held views
+    if mobs.get("nviews", 0) != len(w.views):
+        return bad("#held views", mobs.get("nviews"), len(w.views))
+    kept = [np_json(kp["obj"]) for kp in w.kept]
+    if mobs.get("kept", []) != json.loads(json.dumps(kept)):
+        return bad("kept flatten() results", mobs.get("kept"), kept)
+    for i, ka in enumerate(w.kept_all):
+        if not same_array(ka["obj"], ka["copy"]):
+            return bad(f"kept Vector.flatten() result #{i} (the model hands out a new array that nothing can change)", ka["copy"].tolist(), ka["obj"].tolist())
     return True
 
 
@@ -1093,7 +1266,8 @@ class Gen:
         if cands and rng.chance(0.35):
             return {"p": rng.choice(cands)}
         is_int = rng.chance(0.25)
-        pre.append({"op": "alloc", "ncols": ncols, "rows": gen_rows(rng, ncols, nrows, is_int), "int": is_int})
+        pre.append({"op": "alloc", "ncols": ncols, "rows": gen_rows(rng, ncols, nrows, is_int), "int": is_int,
+                    "layout": rng.weighted([("C", 6), ("F", 2), ("rows2", 2), ("cols2", 2), ("rev", 1), ("revcols", 1)])})
         return {"p": npool}
 
     def live_mats(self):
@@ -1130,6 +1304,8 @@ class Gen:
         if rng.chance(0.6):
             nd = rng.weighted([(1, 3), (2, 4), (3, 3), (0, 0.35)])
             shape = [rng.randint(1, self.max_dim) for _ in range(nd)]
+            if rng.chance(0.15):
+                shape = [1] * nd          # a single cell: (1,), (1, 1), (1, 1, 1)
             op = {"op": "from_shape", "shape": shape}
             nf = rng.weighted([(0, 1), (1, 3), (2, 4), (3, 3), (4, 1)])
             if rng.chance(0.5):
@@ -1161,6 +1337,7 @@ class Gen:
                     op.pop("fields", None)
                     op["num_fields"] = 0
                     op.pop("units", None)
+            self.reuse(op)
             return pre + [op]
         nf = rng.weighted([(1, 3), (2, 4), (3, 3)])
         n = rng.randint(1, max(self.max_dim, 3))
@@ -1196,7 +1373,20 @@ class Gen:
                 op["fields"] = self.fields(nf + 1)
             else:
                 op["items"] = []
+        self.reuse(op)
         return pre + [op]
+
+    def reuse(self, op):
+        """sometimes the caller hands the SAME fields / units list objects to two creation calls"""
+        ll = self.w.last_lists
+        if ll is not None and self.rng.chance(0.25) and isinstance(ll[0], list) and op.get("fields") is not None \
+                and len(ll[0]) == len(op["fields"]) and "num_fields" not in op:
+            op["fields"] = list(ll[0])
+            if ll[1] is not None and "units" in op and len(ll[1]) == len(op["units"]):
+                op["units"] = list(ll[1])
+            op["reuse_lists"] = True
+        elif op.get("fields") is not None and self.rng.chance(0.15):
+            op["fields_tuple"] = True
 
     def ops(self):
         out = self.ops_plain()
@@ -1217,9 +1407,14 @@ class Gen:
         shape, fields = list(v.shape), list(v.fields)
         nf = len(fields)
         room = len(w.vecs) < 9
+        vroom = len(w.views) < 6
+        kroom = len(w.kept) < 6
         kind = rng.weighted([("setitem", 9), ("set_data", 5), ("getitem", 6 if room else 1), ("get_data", 4), ("field_op", 4), ("field_op_gen", 5), ("field_get", 2),
-                             ("set_flattened", 4), ("writeback", 2), ("add_fields", 2), ("remove_fields", 2),
-                             ("copy", 2 if room else 0), ("meta_set", 2), ("set_data_attr", 1), ("assign_view", 2 if room else 0)])
+                             ("set_flattened", 4), ("writeback", 2), ("add_fields", 2), ("remove_fields", 2.5),
+                             ("copy", 2 if room else 0), ("meta_set", 2), ("set_data_attr", 1), ("assign_view", 2 if room else 0),
+                             ("view_make", 2 if vroom else 0), ("view_use", 6 if w.views else 0), ("kept_mutate", 1 if w.kept else 0),
+                             ("keep_all", 0.7 if len(w.kept_all) < 3 else 0), ("restore_idiom", 1.5 if (vroom and kroom) else 0),
+                             ("stale_idiom", 1.5 if vroom else 0), ("populate", 2)])
         pre = []
         valid = rng.chance(0.85)
         if kind in ("getitem", "get_data", "field_get"):
@@ -1292,6 +1487,14 @@ class Gen:
         if kind in ("field_op", "field_op_gen"):
             f = rng.choice(fields) if fields and (valid or rng.chance(0.5)) else "nope"
             via = rng.choice(["item", "item", "view"])
+            return self.field_op_for(vid, f, kind, via)
+        return self.ops_rest(kind, vid, v, shape, fields, nf, valid, pre)
+
+    def field_op_for(self, vid, f, kind, via):
+        """one field-arithmetic op on field `f` of vector `vid` whose exact simulation stays representable"""
+        rng, w = self.rng, self.w
+        v = w.vecs[vid]
+        if True:
             for attempt in range(8):
                 k = rng.weighted([("add", 4), ("sub", 3), ("mul", 3), ("div", 2), ("floordiv", 1), ("mod", 1),
                                   ("pow", 2 if kind == "field_op_gen" else 0)])
@@ -1336,6 +1539,11 @@ class Gen:
                     continue
                 return [{"op": "field_op_gen", "v": vid, "f": f, "k": k, "rhs": rhs, "neg_int_pow": neg, "via": via, "expect": exp}]
             return [{"op": "field_op", "v": vid, "f": f, "k": "add", "c": "0", "via": via}]
+
+    def ops_rest(self, kind, vid, v, shape, fields, nf, valid, pre):
+        rng, w = self.rng, self.w
+        if kind in ("view_make", "view_use", "kept_mutate", "keep_all", "restore_idiom", "stale_idiom", "populate"):
+            return self.ops_kept(kind, vid, v, shape, fields, nf, valid, pre)
         if kind == "set_flattened":
             f = rng.choice(fields) if fields and (valid or rng.chance(0.5)) else "nope"
             total = sum(c.shape[0] for c in flat_cells(v) if isinstance(c, np.ndarray))
@@ -1390,6 +1598,103 @@ class Gen:
             else:
                 items.append(self.value(pre, nf))
         return pre + [{"op": "set_data_attr", "v": vid, "lens": lens, "items": items}]
+
+
+    # ---- objects the caller keeps: held field views, kept flattened arrays; population idioms
+
+    def view_op_for(self, k, via_hint="view"):
+        """field arithmetic through the held view number k (the generator simulates it on the field the view NAMES)"""
+        hv = self.w.views[k]
+        op = self.field_op_for(hv["v"], hv["f"], "field_op_gen", via_hint)[0]
+        if op["op"] == "field_op":
+            return {"op": "view_op", "w": k, "k": op["k"], "rhs": {"c": op["c"], "c_int": False}, "neg_int_pow": False,
+                    "expect": "ok" if hv["f"] in self.w.vecs[hv["v"]].fields else "KeyError"}
+        return {"op": "view_op", "w": k, "k": op["k"], "rhs": op["rhs"], "neg_int_pow": op["neg_int_pow"], "expect": op["expect"]}
+
+    def ops_kept(self, kind, vid, v, shape, fields, nf, valid, pre):
+        rng, w = self.rng, self.w
+        if kind == "view_make":
+            return [{"op": "view_make", "v": vid, "f": rng.choice(fields) if fields and (valid or rng.chance(0.5)) else "nope"}]
+        if kind == "keep_all":
+            return [{"op": "keep_all", "v": vid}]
+        if kind == "kept_mutate":
+            return [{"op": "kept_mutate", "kept": rng.below(len(w.kept)), "k": rng.choice(["add", "sub", "mul"]), "c": str(rng.choice([1, 2, -1, 3]))}]
+        if kind == "view_use":
+            k = len(w.views) - 1 - rng.below(min(3, len(w.views))) if rng.chance(0.6) else rng.below(len(w.views))
+            hv = w.views[k]
+            u = w.vecs[hv["v"]]
+            sub = rng.weighted([("flatten", 3 if len(w.kept) < 6 else 0), ("op", 4), ("set", 2), ("restore", 3 if w.kept else 0), ("get", 1.5)])
+            if sub == "flatten":
+                return [{"op": "view_flatten", "w": k, "via": rng.choice(["method", "method", "asarray"])}]
+            if sub == "op":
+                return [self.view_op_for(k)]
+            if sub == "set":
+                total = sum(c.shape[0] for c in flat_cells(u) if isinstance(c, np.ndarray))
+                n = total if valid or rng.chance(0.4) else max(0, total + rng.choice([-1, 1, 2]))
+                vals = [q(rng) for _ in range(n)] if valid or rng.chance(0.8) else "2d"
+                return [{"op": "view_set", "w": k, "vals": vals}]
+            if sub == "restore":
+                mine = [i for i, kp in enumerate(w.kept) if kp["v"] == hv["v"] and kp["f"] == hv["f"]]
+                i = rng.choice(mine) if mine and rng.chance(0.8) else rng.below(len(w.kept))
+                return [{"op": "view_restore", "w": k, "kept": i, "vals": [qstr(x) for x in w.kept[i]["copy"].tolist()]}]
+            op = {"op": "view_get", "w": k, "idx": gen_idx(rng, list(u.shape), valid, exact=False)}
+            if len(op["idx"]) == 1:
+                op["bare"] = rng.chance(0.5)
+            decorate_forms(rng, dict(op, op="field_get"), len(u.shape))
+            return [op]
+        if kind == "restore_idiom":
+            # F = v[f].flatten(); <field f changes>; v[f].set_flattened(F)  must bring the column back
+            if not fields:
+                return [{"op": "view_make", "v": vid, "f": "nope"}]
+            f = rng.choice(fields)
+            k, i = len(w.views), len(w.kept)
+            mid = self.field_op_for(vid, f, rng.choice(["field_op", "field_op_gen"]), rng.choice(["item", "view"]))
+            if rng.chance(0.3):
+                total = sum(c.shape[0] for c in flat_cells(v) if isinstance(c, np.ndarray))
+                mid = [{"op": "set_flattened", "v": vid, "f": f, "vals": [q(rng) for _ in range(total)], "via": "method", "as_list": False}]
+            cur = np.asarray(v[f].flatten())
+            return [{"op": "view_make", "v": vid, "f": f}, {"op": "view_flatten", "w": k, "via": rng.choice(["method", "asarray"])}] + mid + \
+                   [{"op": "view_restore", "w": k, "kept": i, "vals": [qstr(x) for x in cur.tolist()]}]
+        if kind == "stale_idiom":
+            # fv = v[f]; the schema of v changes (a field in FRONT of f is removed / fields are added); fv is used again
+            if len(fields) < 2:
+                return [{"op": "view_make", "v": vid, "f": fields[0] if fields else "nope"}]
+            j = rng.randint(1, len(fields) - 1)
+            f = fields[j]
+            k = len(w.views)
+            if rng.chance(0.8):
+                gone = rng.sample(fields[:j], rng.randint(1, min(2, j)))
+                if rng.chance(0.15):
+                    gone = gone + [f]
+                change = {"op": "remove_fields", "v": vid, "names": rng.shuffle(gone), "as_str": False}
+            else:
+                free = [n for n in NAMES if n not in fields]
+                change = {"op": "add_fields", "v": vid, "names": rng.sample(free, 1), "as_str": rng.chance(0.3), "as_tuple": False}
+            out = [{"op": "view_make", "v": vid, "f": f}, change, {"op": "view_flatten", "w": k, "via": "method"}]
+            still = f not in change["names"] or change["op"] == "add_fields"
+            if rng.chance(0.7):
+                out.append({"op": "view_op", "w": k, "k": rng.choice(["add", "sub"]), "rhs": {"c": str(rng.choice([1, 2, -1])), "c_int": rng.chance(0.5)},
+                            "neg_int_pow": False, "expect": "ok" if still else "KeyError"})
+            return out
+        # populate: bring the number of populated cells of v to exactly one / all but one / all (single-cell assignments)
+        cells = flat_cells(v)
+        n = len(cells)
+        if n == 0 or not shape:
+            return [{"op": "keep_all", "v": vid}]
+        want = rng.weighted([(1, 4), (n - 1, 3), (n, 3)])
+        unset = [i for i, c in enumerate(cells) if c is None]
+        have = n - len(unset)
+        todo = rng.shuffle(unset)[:max(0, min(want - have, 8))]
+        out = []
+        for pos in todo:
+            coord = [int(x) for x in np.unravel_index(pos, tuple(shape))]
+            if rng.chance(0.5):
+                out.append({"op": "setitem", "v": vid, "idx": [{"i": c} for c in coord], "val": {"one": self.value(pre, nf)}})
+            else:
+                out.append({"op": "set_data", "v": vid, "idx": [{"i": c} for c in coord], "val": {"one": self.value(pre, nf)}})
+        if not out:
+            return [{"op": "view_make", "v": vid, "f": rng.choice(fields) if fields else "nope"}]
+        return pre + out
 
 
 # ---------------------------------------------------------------------------------------
@@ -1480,6 +1785,7 @@ def run_ops(ctx, drv, ops_iter, record, setter_rng=None):
         except Structural:
             break
         before["pool"] = list(w.pool)
+        eop = effective(w, op)
         res = apply_real(w, op)
         if "err" in res and res["err"].startswith("Other:"):
             ctx.pred_fail(f"unexpected-exception:{op['op']}:{res['err']}", f"{op['op']} raised {res['err']}", case, observed=res,
@@ -1488,32 +1794,42 @@ def run_ops(ctx, drv, ops_iter, record, setter_rng=None):
         k = op["op"]
         ctx.dist[f"op:{k}"] += 1
         ctx.dist["outcome:" + res.get("err", "ok")] += 1
-        if "v" in op:
-            sg = op_signature(w, before, op, res)
+        sop = dict(eop, op=k)
+        if "v" in sop:
+            sg = op_signature(w, before, sop, res)
             ctx.dist["target-holds-shared-array:" + ("yes" if sg[5] else "no")] += 1
-            ctx.dist[f"target-dims:{len(before['vecs'][op['v']]['shape'])}"] += 1
-            ctx.dist[f"target-fields:{len(before['vecs'][op['v']]['fields'])}"] += 1
+            ctx.dist[f"target-dims:{len(before['vecs'][sop['v']]['shape'])}"] += 1
+            ctx.dist[f"target-fields:{len(before['vecs'][sop['v']]['fields'])}"] += 1
+            bc_ = before["vecs"][sop["v"]]["cells"]
+            npop = sum(c is not None for c in bc_)
+            ctx.dist["target-populated-cells:" + ("none" if npop == 0 else "exactly-one" if npop == 1 else "all" if npop == len(bc_)
+                                                  else "all-but-one" if npop == len(bc_) - 1 else "some")] += 1
+            if k.startswith("view_") and k != "view_make":
+                ctx.dist["held-view:" + ("field-still-there" if sop.get("f") in before["vecs"][sop["v"]]["fields"] else "field-gone")
+                         + (":index-moved" if sop.get("f") in before["vecs"][sop["v"]]["fields"] and
+                            w.views[op["w"]].get("j0") != before["vecs"][sop["v"]]["fields"].index(sop["f"]) else "")] += 1
         for ix in op.get("idx", []):
             ctx.dist["index:" + ("int" if "i" in ix else "slice" if "s" in ix else "list")] += 1
             if "form" in ix:
                 ctx.dist["index-form:" + ix["form"]] += 1
         if any(c is not None for b in before["vecs"] for c in b["cells"]) or k in ("from_data", "setitem", "set_data"):
-            ctx.mark(op_signature(w, before, op, res))
+            ctx.mark(op_signature(w, before, sop, res))
         if k == "field_op_gen":
             rk = "scalar" if "c" in op["rhs"] else "ndarray" if "arr" in op["rhs"] else "fieldview"
             ctx.dist[f"field-operand:{rk}:{op['k']}:{res.get('err', 'ok')}"] += 1
-        if "v" in op and op["v"] < len(before["vecs"]):
-            pc = [c for c in before["vecs"][op["v"]]["cells"] if isinstance(c, np.ndarray)]
-            if pc and k in ("field_op", "field_op_gen", "set_flattened", "add_fields", "remove_fields", "copy"):
+        if "v" in sop and sop["v"] < len(before["vecs"]):
+            pc = [c for c in before["vecs"][sop["v"]]["cells"] if isinstance(c, np.ndarray)]
+            if pc and k in ("field_op", "field_op_gen", "set_flattened", "add_fields", "remove_fields", "copy", "view_op", "view_set", "view_restore"):
                 kinds = {c.dtype.kind for c in pc}
                 ctx.dist["target-dtypes:" + ("int64" if kinds == {"i"} else "float64" if kinds == {"f"} else "mixed")] += 1
-            if "idx" in op and len(op["idx"]) > len(before["vecs"][op["v"]]["shape"]):
+            if "idx" in op and len(op["idx"]) > len(before["vecs"][sop["v"]]["shape"]):
                 ctx.dist[f"over-long-index:{k}:{res.get('err', 'ok')}"] += 1
-        cont = check_op(ctx, w, before, op, res, case)
+        cont = check_op(ctx, w, before, eop, res, case)
         if not cont:
             return w, done
+        check_kept(ctx, w, op, res, case)
         if drv is not None:
-            m = drv.ask(op)
+            m = drv.ask({"op": "nop"} if k == "keep_all" else op)
             if "err" in m and "r" not in m:
                 raise RuntimeError(f"driver error {m} on {op}")
             if m["r"] != json.loads(json.dumps(res)):
